@@ -201,6 +201,12 @@ func (u *unpacker) read(sz uint64, x interface{}) bool {
 }
 
 func (u *unpacker) readStr(n int) (ok bool) {
+	// Make sure the string is all there before requiring memory for it and
+	// allocating it (n may be huge or negative as it comes from the data).
+	if n < 0 || n > len(u.pack)-u.j {
+		u.err = errUnexpectedPackEnd
+		return false
+	}
 	if !u.consumeBudget(uint64(n)) {
 		return false
 	}
